@@ -364,6 +364,21 @@ def limits_guards(r: R, ctx: Ctx, srcs_a: Set[tuple], srcs_b: Set[tuple]):
     return out
 
 
+def reach_cut(ctx: Ctx, starts, avoid=frozenset(), cut_edges=frozenset()) -> Set[int]:
+    """nodes reachable over normal edges from `starts`, not entering `avoid`, not traversing `cut_edges` (node id, label)"""
+    seen, todo = set(), list(starts)
+    while todo:
+        x = todo.pop()
+        if x in seen or x in avoid:
+            continue
+        seen.add(x)
+        for t_, lab in ctx.cfg.nodes[x].succ:
+            if lab == "exc" or (x, lab) in cut_edges:
+                continue
+            todo.append(t_)
+    return seen
+
+
 def falls_through(ctx: Ctx) -> List[Node]:
     """nodes from which the function end is reached without a `return` (implicit None)"""
     cfg = ctx.cfg
